@@ -173,6 +173,8 @@ func cmdCheck(args []string) {
 	solverTime := 0.0
 	var undecided, newFailing, knownLines []string
 	coverOK := true
+	var coverFail []string
+	coverUnknown := 0
 	replayDir := filepath.Join(*outDir, "replay", *prop)
 	os.MkdirAll(replayDir, 0o755)
 	report := func(name, reason string, r *OblResult) {
@@ -244,9 +246,11 @@ func cmdCheck(args []string) {
 	}
 	for _, r := range all {
 		if r.Obl.Kind == "cover" {
-			if r.Status != "cover-ok" {
+			if r.Status == "cover-fail" {
 				coverOK = false
-				undecided = append(undecided, r.Obl.Name+" ["+r.Status+"]")
+				coverFail = append(coverFail, r.Obl.Name)
+			} else if r.Status != "cover-ok" {
+				coverUnknown++
 			}
 			continue
 		}
@@ -324,6 +328,8 @@ func cmdCheck(args []string) {
 			"unclaimed_undecided":   undecided,
 			"known_findings":        knownLines,
 			"cover_ok":              coverOK,
+			"cover_unreachable":     coverFail,
+			"cover_inconclusive":    coverUnknown,
 			"samples":               samples,
 			"abstracted":            ab,
 			"residual_not_decided":  cfg.Residual,
@@ -338,6 +344,13 @@ func cmdCheck(args []string) {
 	os.WriteFile(filepath.Join(*outDir, "evidence", *prop+".json"), js, 0o644)
 	fmt.Printf("property %s tier %s: %d/%d claimed obligations discharged, %d generated, %d known findings, %d violations, %.1fs\n",
 		*prop, *tier, discharged, claimedN, len(all), len(knownLines), violations, time.Since(t0).Seconds())
+	if len(coverFail) > 0 {
+		// a path that the contracts make unreachable would make every obligation on it vacuously true
+		for _, n := range coverFail {
+			fmt.Println("BROKEN-CONTRACT: unreachable continuation (vacuity guard):", n)
+		}
+		os.Exit(2)
+	}
 	if claimedN == 0 || discharged == 0 {
 		fmt.Println("error: no obligations claimed/discharged (vacuous check)")
 		os.Exit(2)
